@@ -655,6 +655,9 @@ func (g *g2l) headerExtra() string {
 	}
 	if g.ownUsed() {
 		b.WriteString(g2lOwnHeader) // go2lean_own.go
+		if g.retUsed() {
+			b.WriteString(g2lOwnRetHeader) // go2lean_ownret.go
+		}
 	}
 	if len(g.cfg.Named) > 0 {
 		b.WriteString("  * the named types in namedTypes are opaque: values of the Lean type given\n" +
